@@ -68,6 +68,12 @@ class Acc:
                            detail="" if bad is None else "first failing input: %s" % (_short(bad),), witness=bad)
 
 
+def _exc(ex, head=250, tail=350):
+    """exception text for a witness: TensorFlow puts the operative message LAST (after the node's stack), so keep both ends"""
+    t = "%s: %s" % (type(ex).__name__, str(ex).strip())
+    return t if len(t) <= head + tail + 5 else t[:head] + " ... " + t[-tail:]
+
+
 def _short(w, n=900):
     s = repr(w)
     return s if len(s) <= n else s[:n] + "..."
@@ -855,8 +861,48 @@ C05_VARIANTS = {
     "tf+jit+lazy": {"use_tf_function": True, "jit_compile": True, "lazy_call": True},
 }
 # Tolerance: all strategies evaluate the same products in a different association order (cached tensors, fused XLA kernels);
-# observed differences are a few ulp.  rtol 1e-9 (as in DESIGN C05) + the C01 absolute floor.
+# observed differences are a few ulp.  Base rtol 1e-9 (as in DESIGN C05) + the C01 absolute floor.
 C05_RTOL = 1e-9
+# Per-event conditioning.  A strategy that recomputes kinematic quantities in a differently compiled program (p4_directly inside
+# tf.function / XLA) is at best backward stable: it returns the exact density of momenta a few ulp away.  How much the density of ONE
+# event moves under such a perturbation is a property of the event (and parameters), not of the strategy, and is MEASURED on the
+# reference itself: the plain eager default density is re-evaluated on C05_NPERT copies of the events with every momentum component
+# scaled by 1 +- 4e-16 (seeded signs); sens_i = largest relative change of event i.  The relative tolerance of event i is
+#     rtol_i = min( max(base, C05_K * sens_i), C05_RTOL_CAP )
+# C05_K = 50: a strategy commits one such rounding in each of O(10^2) intermediate quantities, the probe samples only C05_NPERT random
+# sign patterns.  For a well conditioned event sens_i ~ 1e-14, so rtol_i = base; the cap keeps any measured sensitivity from excusing
+# a wrong strategy (those differ by >> 1e-6, on most events).
+C05_K = 50.0
+C05_NPERT = 2
+C05_RTOL_CAP = 1e-6
+# base: 1e-9, except for configurations with the "shared vertex" geometry analysed for C01 (C01_RTOL_SHARED_VERTEX above): two chains
+# of different topology share the production vertex of a spinning final particle, the alignment angle beta = acos(1 - O(eps)) carries
+# an absolute rounding error O(sqrt(2 eps)) ~ 1.5e-8 that JUMPS between discrete values (0, 1.5e-8, 2.1e-8) with the rounding of its
+# argument, so a finite number of probes sees it only on some events (observed: 3.2e-9 on 2 of 256 events for p4_directly under
+# tf.function, the same 3.2e-9 reproduced by the probe on one of them and missed on the other).  There the derived bound of C01 is used.
+
+
+def _recomputes_kinematics(pair):
+    """(preprocessor, amp_model) pairs whose amplitude model derives masses / angles from the four-momenta itself"""
+    return "p4_directly" in pair
+
+
+def _c05_base_rtol(sname, chains):
+    ch = set(M.STRUCTS[sname]["chains"] if chains is None else chains)
+    return C01_RTOL_SHARED_VERTEX if (sname == "f4" and {"cas2", "cas3"} <= ch) else C05_RTOL
+
+
+def _c05_rtol(ref, pert, base):
+    """-> (per-event rtol, per-event measured sensitivity); pert: default densities of the ulp-perturbed copies of the events"""
+    sens = np.zeros_like(ref)
+    for dp in pert:
+        s_ = np.abs(dp - ref) / np.maximum(np.abs(ref), 1e-300)
+        sens = np.maximum(sens, np.where(np.isfinite(s_), s_, 0.0))
+    return np.minimum(np.maximum(base, C05_K * sens), max(base, C05_RTOL_CAP)), sens
+
+
+_C05_TOL_TEXT = ("rtol per event = max(%g, 50 x relative change of the plain default density of that event when every momentum component is perturbed by "
+                 "4e-16 relative (2 seeded probes)), capped at 1e-6")
 
 
 def _xla_available(ctx):
@@ -871,9 +917,10 @@ def _xla_available(ctx):
 def _c05_density_jobs(ctx, acc, label, sname, chains, jobs, n_ev, xla, seed_off=0):
     """jobs: list of ((pre, amp_model), variant name, extra data options)"""
     cl = {}
+    base = _c05_base_rtol(sname, chains)
     for am in sorted({j[0][1] for j in jobs}):
         cl[am] = ("amp_model=%s (with its compatible preprocessors, eager / tf.function / XLA / lazy_call variants): density == plain eager default density, "
-                  "on first call, second call (compiled path) and on a second data object, rtol 1e-9" % am)
+                  "on first call, second call (compiled path) and on a second data object, %s" % (am, _C05_TOL_TEXT % base))
         acc.declare("%s/%s" % (label, am), cl[am])
     ps = M.phsp(ctx, sname, n_ev, ctx.seed + 50 + seed_off)
     ps2 = M.phsp(ctx, sname, n_ev + 3, ctx.seed + 51 + seed_off)
@@ -883,6 +930,7 @@ def _c05_density_jobs(ctx, acc, label, sname, chains, jobs, n_ev, xla, seed_off=
     M.set_params(amp0, params)
     ref = [M.density(config0, amp0, sname, ps), M.density(config0, amp0, sname, ps2)]
     floor = [C01_AFLOOR * float(np.mean(r)) for r in ref]
+    rtol, sens = zip(*[_c05_rtol(r, [M.density(config0, amp0, sname, M.ulp_perturbed(pp, j)) for j in range(C05_NPERT)], base) for r, pp in zip(ref, (ps, ps2))])
     for (pre, am), vname, extra in jobs:
         o = dict(C05_VARIANTS[vname])
         if o.get("jit_compile") and not xla:
@@ -914,17 +962,17 @@ def _c05_density_jobs(ctx, acc, label, sname, chains, jobs, n_ev, xla, seed_off=
         except Exception as ex:  # noqa: BLE001
             ctx.count(key=cname, sample={"config": cname, "events": n_ev})
             acc.add("%s/%s" % (label, am), cl[am], False, np.inf,
-                    {"config": cname, "call": stage, "exception": "%s: %s" % (type(ex).__name__, str(ex)[:400]), "config_dict": cfg,
+                    {"config": cname, "call": stage, "exception": _exc(ex), "config_dict": cfg,
                      "reference_config_dict": ref_cfg, "params_seed": ctx.seed + 52})
             continue
         ctx.count(key=cname, sample={"config": cname, "events": n_ev})
         for k, (dk, what) in enumerate(zip(d, ("first call", "second call on the same data object", "first call on a second data object",
                                                "second call on the second data object"))):
-            r, fl, pp = (ref[0], floor[0], ps) if k < 2 else (ref[1], floor[1], ps2)
+            r, fl, pp, rt, sn = (ref[0], floor[0], ps, rtol[0], sens[0]) if k < 2 else (ref[1], floor[1], ps2, rtol[1], sens[1])
             if dk.shape != r.shape:
                 acc.add("%s/%s" % (label, am), cl[am], False, np.inf, {"config": cname, "call": what, "shape": list(dk.shape), "expected_shape": list(r.shape), "config_dict": cfg})
                 continue
-            tol = C05_RTOL * np.maximum(np.abs(dk), np.abs(r)) + fl
+            tol = rt * np.maximum(np.abs(dk), np.abs(r)) + fl
             err = np.abs(dk - r)
             ratio = np.where(np.isfinite(err), err / tol, np.inf)
             i = int(np.argmax(ratio))
@@ -932,7 +980,8 @@ def _c05_density_jobs(ctx, acc, label, sname, chains, jobs, n_ev, xla, seed_off=
             w = None
             if not ok:
                 w = {"config": cname, "call": what, "event": i, "density": float(dk[i]), "density_plain_eager_default": float(r[i]),
-                     "rel_diff": float(err[i] / max(abs(dk[i]), abs(r[i]), 1e-300)), "n_events_failing": int(np.sum(ratio > 1)), "n_events": len(r),
+                     "rel_diff": float(err[i] / max(abs(dk[i]), abs(r[i]), 1e-300)), "rtol_of_event": float(rt[i]), "measured_sensitivity_of_event": float(sn[i]),
+                     "n_events_failing": int(np.sum(ratio > 1)), "n_events": len(r),
                      "p4": _event(sname, pp, i), "params_seed": ctx.seed + 52, "config_dict": cfg, "reference_config_dict": ref_cfg}
             acc.add("%s/%s" % (label, am), cl[am], ok, float(ratio[i]), w)
 
@@ -949,6 +998,264 @@ def _c05_jobs(pairs, tier, rotate=("tf+jit", "eager+lazy", "tf+noid+lazy")):
     return jobs
 
 
+# strategies that keep per-event quantities computed when the data object was BUILT ----------------------------------------------
+# The statement quantifies over all parameter values; a data object is built once (cal_angle / load_data) and is then evaluated at
+# many parameter points (every fit step), so "same density as plain eager evaluation" must hold on the SAME data object after the
+# parameters have moved, for every choice of which line-shape parameters float (config grammar, config_loader.py
+# add_particle_constraints: `float: m` mass only, `float: g` width only, `float: mg` both, absent: only couplings float).
+# Only TRAINABLE parameters are moved after the data object exists: a strategy may fold a FIXED mass / width into its cache
+# (that is what "fixed" means to it; the statement grants this explicitly for cached integrals).
+C05_CACHED_PAIRS = [pr for pr in C05_PAIRS if pr != ("default", "default")]
+# the pairs whose preprocessor stores tensors in the data object AND whose amplitude model reads them (only these can go stale when a
+# parameter moves; the quick tier restricts the parameter-change obligations to them, the thorough tier takes all pairs)
+C05_CACHED_CORE = [("cached_amp", "cached_amp"), ("cached_shape", "cached_shape"), ("cached_angle", "base_factor")]
+# thorough tier: every pair whose amplitude model is not the default one (the default model reads none of the stored tensors and is the
+# reference itself; its pairs with the cached preprocessors stay in the main obligations and in the charge-conjugation entries)
+C05_PARAM_PAIRS = [pr for pr in C05_CACHED_PAIRS if pr[1] != "default"]
+_F4P = {("A", "R_BCE", "D"): {"p_break": True}, ("A", "R_BCD", "E"): {"p_break": True}, ("A", "R_BC", "R_DE"): {"p_break": True}}
+
+
+def _strat(pre, am):
+    return am if pre == am else "%s+%s" % (pre, am)
+
+
+def _c05_cmp(acc, name, clause, dk, r, fl, rt, sn, base_w, sname, pp, per_event=None):
+    """one density array against the plain eager default one (per-event rtol rt, measured sensitivity sn, absolute floor fl), aggregated into
+    obligation `name`; per_event: {key: per-event array} copied into the witness for the failing event"""
+    if dk.shape != r.shape:
+        acc.add(name, clause, False, np.inf, dict(base_w, shape=list(dk.shape), expected_shape=list(r.shape)))
+        return
+    tol = rt * np.maximum(np.abs(dk), np.abs(r)) + fl
+    err = np.abs(dk - r)
+    ratio = np.where(np.isfinite(err), err / tol, np.inf)
+    i = int(np.argmax(ratio))
+    ok = bool(ratio[i] <= 1.0)
+    w = None
+    if not ok:
+        w = dict(base_w, event=i, density=float(dk[i]), density_plain_eager_default=float(r[i]),
+                 rel_diff=float(err[i] / max(abs(dk[i]), abs(r[i]), 1e-300)), rtol_of_event=float(rt[i]), measured_sensitivity_of_event=float(sn[i]),
+                 n_events_failing=int(np.sum(ratio > 1)), n_events=len(r),
+                 p4=_event(sname, pp, i))
+        for k, v in (per_event or {}).items():
+            w[k] = float(v[i])
+            w["n_events_failing_by_" + k] = {str(u): int(np.sum((ratio > 1) & (v == u))) for u in np.unique(v)}
+    acc.add(name, clause, ok, float(ratio[i]), w)
+
+
+def _used_res(sname, chains):
+    out = []
+    for ck in (list(M.STRUCTS[sname]["chains"]) if chains is None else chains):
+        for r in _chain_res(sname, ck):
+            if r not in out:
+                out.append(r)
+    return out
+
+
+def _float_assignments(sname, chains, tier, k):
+    """-> [(label, {resonance: "m" | "g" | "mg"})]: which line-shape parameters float.  quick: nothing floats; then each of m / g / mg
+    on ONE resonance (rotating with k), all others fixed (so cached and live chains coexist); four-body structures skip mg in the quick
+    tier (cost; m and g alone are the sharper cases).  thorough: each of m / g / mg on every single resonance and on all of them, plus
+    the four cyclic assignments of (none, m, g, mg) over the resonances."""
+    res = _used_res(sname, chains)
+    out = [("none", {})]
+    for j, X in enumerate(("m", "g", "mg")):
+        if tier == "quick":
+            if X == "mg" and not M.is_three_body(sname):
+                continue
+            out.append((X, {res[(k + j) % len(res)]: X}))
+        else:
+            out += [(X, {r: X}) for r in res] + [(X, {r: X for r in res})]
+    if tier != "quick":
+        modes = (None, "m", "g", "mg")
+        for sh in range(4):
+            out.append(("mixed", {r: modes[(i + sh) % 4] for i, r in enumerate(res) if modes[(i + sh) % 4]}))
+    return out
+
+
+def _c05_param_change(ctx, acc, label, sname, chains, assigns, pairs, variants, n_ev, xla, seed_off=0):
+    """data object built at parameters P0, then evaluated (same object) at P0, at P1 (only the floating masses / widths moved; the
+    couplings when no line-shape parameter floats), at P2 (every trainable parameter moved) and again at P0."""
+    ps = M.phsp(ctx, sname, n_ev, ctx.seed + 150 + seed_off)
+    base = _c05_base_rtol(sname, chains)
+    for X, assign in assigns:
+        ro = {r: {"float": v} for r, v in assign.items()} or None
+        ref_cfg = M.build_config(sname, chains=chains, res_over=ro)
+        config0, amp0 = _load(ctx, ref_cfg)
+        # precondition of the catalogue entry (configuration grammar): exactly the requested masses / widths are trainable
+        want = sorted(M.nm(sname, r) + suf for r, v in assign.items() for c, suf in (("m", "_mass"), ("g", "_width")) if c in v)
+        shape_tr = sorted(n for n in M.trainable_names(amp0) if M.is_shape_name(n))
+        if shape_tr != want:
+            raise RuntimeError("catalogue entry %s float=%s: trainable line-shape parameters %s, expected %s" % (label, assign, shape_tr, want))
+        # all parameter points are drawn BY NAME from the freshly built model (masses / widths relative to their nominal values)
+        vals = [M.random_params(amp0, ctx.seed + 153 + j, shape=True) for j in range(3)]
+        P0, _ = M.overlay_trainable(amp0, M.random_params(amp0, ctx.seed + 152, shape=False), vals[0], kinds=("shape",))
+        P1, ch1 = M.overlay_trainable(amp0, P0, vals[1], kinds=("shape",) if shape_tr else ("coupling",))
+        P2, ch2 = M.overlay_trainable(amp0, P0, vals[2])
+        points = [("at the parameters current when the data object was built", P0),
+                  ("same data object after set_params of %s" % (ch1 if shape_tr else "all trainable couplings",), P1),
+                  ("same data object after set_params of all %d trainable parameters" % len(ch2), P2),
+                  ("same data object, back at the first parameters", P0)]
+        M.set_params(amp0, P0)
+        data0 = M.cal_data(config0, sname, ps)
+        # conditioning probes only where a compared strategy recomputes kinematic quantities from the momenta (p4_directly); the other
+        # strategies consume the masses and angles computed by the same eager preprocessor code as the reference: base rtol
+        kin = [pr for pr in pairs if _recomputes_kinematics(pr)]
+        probes = [M.cal_data(config0, sname, M.ulp_perturbed(ps, j)) for j in range(C05_NPERT)] if kin else []
+        ref, rtol, sens = [], [], []
+        for _, P in points:
+            M.set_params(amp0, P)
+            ref.append(np.asarray(amp0(data0), dtype=float))
+            rt, sn = _c05_rtol(ref[-1], [np.asarray(amp0(pd), dtype=float) for pd in probes], base)
+            rtol.append(rt)
+            sens.append(sn)
+        rtol0 = [np.full_like(r, base) for r in ref]
+        floor = [C01_AFLOOR * float(np.mean(r)) for r in ref]
+        moved = float(np.max(np.abs(ref[1] - ref[0]) / np.maximum(np.abs(ref[0]), 1e-300)))
+        acc.add("%s@float_%s/nonvacuous" % (label, X),
+                "catalogue entry is sensitive: the plain default density reacts (> 1e-6 relative on some event) to the parameter change used by the "
+                "after_param_change obligations of this entry", moved > 1e-6, 0.0,
+                {"config_dict": ref_cfg, "changed": ch1, "max_rel_change_of_default_density": moved})
+        for pre, am in pairs:
+            name = "%s@float_%s/%s/after_param_change" % (label, X, _strat(pre, am))
+            clause = ("preprocessor=%s amp_model=%s, floating line-shape parameters: %s per resonance: the data object is built once; the density evaluated on "
+                      "that SAME object equals the plain eager default density at the parameters current when it was built, after the floating "
+                      "masses / widths (or, if none floats, the couplings) were changed by name, after all trainable parameters were changed, and back at "
+                      "the first point; %s" % (pre, am, X, (_C05_TOL_TEXT % base) if (pre, am) in kin else "rtol %g" % base))
+            acc.declare(name, clause)
+            for vname in variants:
+                o = dict(C05_VARIANTS[vname])
+                assert not o.get("lazy_call"), "lazy data are rebuilt on every call: nothing is kept across a parameter change"
+                if o.get("jit_compile") and not xla:
+                    ctx.count(key=(label, X, pre, am, vname, "skipped"), sample={"skipped": "XLA unavailable", "structure": label, "options": o})
+                    continue
+                o.update({"preprocessor": pre, "amp_model": am})
+                cfg = M.build_config(sname, chains=chains, data=o, res_over=ro)
+                cname = "%s float=%s pre=%s amp_model=%s %s" % (label, assign or None, pre, am, vname)
+                ctx.count(key=cname, sample={"config": cname, "events": n_ev, "parameter_points": len(points)})
+                base_w = {"config": cname, "config_dict": cfg, "reference_config_dict": ref_cfg, "params_seed": [ctx.seed + 152 + j for j in range(4)]}
+                stage, d = "build", []
+                try:
+                    with _quiet():
+                        config, amp = M.load(ctx, cfg)
+                        M.set_params(amp, P0)
+                        stage = "cal_angle"
+                        data = M.cal_data(config, sname, ps)
+                        for what, P in points:
+                            stage = what
+                            M.set_params(amp, P)
+                            d.append(np.asarray(amp(data), dtype=float))
+                except Exception as ex:  # noqa: BLE001  (a strategy that raises where plain default evaluation works does not return the default density)
+                    acc.add(name, clause, False, np.inf, dict(base_w, call=stage, exception=_exc(ex)))
+                    continue
+                for (what, P), dk, r, fl, rt, sn in zip(points, d, ref, floor, rtol if (pre, am) in kin else rtol0, sens):
+                    _c05_cmp(acc, name, clause, dk, r, fl, rt, sn, dict(base_w, call=what, params={k: float(v) for k, v in P.items()}), sname, ps)
+
+
+# charge-conjugate events -----------------------------------------------------------------------------------------------------------
+# A sample may mix both charges (data section: data_charge, consumed by SimpleData.load_data as the extra variable
+# "charge_conjugation").  With cp_trans: True (default) the momenta of charge -1 events are parity transformed by the preprocessor;
+# with cp_trans: False the helicity couplings are taken at the opposite helicities inside the amplitude.  Either way every strategy
+# must return what plain default evaluation returns for the same events, charges and parameters.  The density only depends on the
+# charge when parity violation is observable: parity-violating production vertex (p_break) AND either a decaying particle that
+# populates only some helicities (`spins`) or a four-body final state (triple products); the entries below are chosen that way and
+# the "nonvacuous" obligation checks it.
+C05_CHARGE_ENTRIES = {
+    "s110": ("s110", None, _P3, {"spins": [-1, 1]}),
+    "s1hh": ("s1hh", None, _P3, {"spins": [-1, 1]}),
+    "sh00": ("sh00", None, _P3, {"spins": [0.5]}),
+    "f4": ("f4", ["cas", "cas2", "br"], _F4P, None),
+}
+
+
+def _c05_charge_conj(ctx, acc, entry, jobs, n_ev, xla, seed_off=0):
+    """jobs: [((preprocessor, amp_model), variant name)]"""
+    sname, chains, vertex, top_over = C05_CHARGE_ENTRIES[entry]
+    label = "%s@charge_conj" % entry
+    ps = M.phsp(ctx, sname, n_ev, ctx.seed + 170 + seed_off)
+    charge = M.mixed_charges(n_ev, ctx.seed + 171 + seed_off)
+    base = _c05_base_rtol(sname, chains)
+    neg = charge < 0
+    for cp in (True, False):
+        sub = "%s/cp_trans_%s" % (label, "true" if cp else "false")
+        ref_cfg = M.build_config(sname, chains=chains, vertex=vertex, top_over=top_over, data={"cp_trans": cp})
+        config0, amp0 = _load(ctx, ref_cfg)
+        params = M.random_params(amp0, ctx.seed + 172, shape=False)
+        M.set_params(amp0, params)
+        ref = np.asarray(amp0(M.cal_data_extra(config0, sname, ps, charge=charge)), dtype=float)
+        ref_plus = np.asarray(amp0(M.cal_data_extra(config0, sname, ps, charge=np.ones(n_ev))), dtype=float)
+        floor = C01_AFLOOR * float(np.mean(ref))
+        rtol, msens = _c05_rtol(ref, [np.asarray(amp0(M.cal_data_extra(config0, sname, M.ulp_perturbed(ps, j), charge=charge)), dtype=float)
+                                      for j in range(C05_NPERT)], base)
+        sens = float(np.max(np.abs(ref[neg] - ref_plus[neg]) / np.maximum(np.abs(ref[neg]), 1e-300)))
+        same_plus = bool(np.all(ref[~neg] == ref_plus[~neg]))
+        acc.add("%s/nonvacuous" % sub,
+                "catalogue entry is sensitive: the plain default density of the charge -1 events differs (> 1e-3 relative on some event) from the "
+                "density of the same events given charge +1, and the charge +1 events are unaffected", sens > 1e-3 and same_plus, 0.0,
+                {"config_dict": ref_cfg, "max_rel_change_of_default_density_on_negative_events": sens, "positive_events_unchanged": same_plus,
+                 "charges": _f(charge)})
+        for (pre, am), vnames in itertools.groupby(jobs, key=lambda j: j[0]):
+            variants = [v for _, v in vnames]
+            name = "%s/%s" % (sub, _strat(pre, am))
+            clause = ("preprocessor=%s amp_model=%s, cp_trans: %s, parity-violating production vertex, events of both charges (charge_conjugation +1 / -1 "
+                      "supplied as by data_charge): density == plain eager default density of the same events and charges, first and second call; "
+                      "%s" % (pre, am, cp, _C05_TOL_TEXT % base))
+            acc.declare(name, clause)
+            for vname in variants:
+                o = dict(C05_VARIANTS[vname])
+                assert not o.get("lazy_call")
+                if o.get("jit_compile") and not xla:
+                    ctx.count(key=(sub, pre, am, vname, "skipped"), sample={"skipped": "XLA unavailable", "structure": sub, "options": o})
+                    continue
+                o.update({"preprocessor": pre, "amp_model": am, "cp_trans": cp})
+                cfg = M.build_config(sname, chains=chains, vertex=vertex, top_over=top_over, data=o)
+                cname = "%s pre=%s amp_model=%s %s" % (sub, pre, am, vname)
+                ctx.count(key=cname, sample={"config": cname, "events": n_ev, "negative_events": int(np.sum(neg))})
+                base_w = {"config": cname, "config_dict": cfg, "reference_config_dict": ref_cfg, "params_seed": ctx.seed + 172, "charges": _f(charge)}
+                stage, d = "build", []
+                try:
+                    with _quiet():
+                        config, amp = M.load(ctx, cfg)
+                        M.set_params(amp, params)
+                        stage = "cal_angle(p4, charge_conjugation=charges)"
+                        data = M.cal_data_extra(config, sname, ps, charge=charge)
+                        for stage in ("first call", "second call on the same data object"):
+                            d.append((stage, np.asarray(amp(data), dtype=float)))
+                except Exception as ex:  # noqa: BLE001
+                    acc.add(name, clause, False, np.inf, dict(base_w, call=stage, exception=_exc(ex)))
+                    continue
+                for what, dk in d:
+                    _c05_cmp(acc, name, clause, dk, ref, floor, rtol, msens, dict(base_w, call=what), sname, ps, per_event={"charge": charge})
+
+
+_C05_EXTRA_BOUND = ("Parameter change on ONE data object: %s; floating line-shape parameters none / m / g / mg (4-body: none / m / g) on one resonance rotating (quick) or on every "
+                    "single resonance, on all, and 4 cyclic mixed assignments (thorough); pairs cached_amp, cached_shape, cached_angle+base_factor eager (quick) "
+                    "or the 5 pairs with a non-default amplitude model eager + the 3 cached pairs with use_tf_function on the quick assignments (thorough); 4 parameter points (as built, floating shapes moved, all "
+                    "trainable moved, back); 16 / 128 events.  Charge conjugation: %s, production vertices p_break, seeded charges +-1, cp_trans in "
+                    "{True, False}, the 5 pairs with a non-default amplitude model eager (thorough: + the default model behind the cached preprocessors, + use_tf_function for the 4 pairs "
+                    "with a cached / p4 preprocessor and non-default model), two calls; 16 / 128 events.  Tolerance: rtol per event max(1e-9, 50 x measured "
+                    "sensitivity of the default density to a 4e-16 perturbation of the momenta) <= 1e-6 wherever p4_directly is among the compared strategies, else "
+                    "1e-9 (base 1e-6 for the 4-body shared-vertex configuration, see C01); + absolute floor 1e-10 x mean density")
+
+
+def _c05_extra(ctx, acc, xla, float_structs, charge_entries):
+    """parameter-change and charge-conjugation obligations of a group; float_structs: [(structure, rotation index)]"""
+    quick = ctx.tier == "quick"
+    n_ev = 16 if quick else 128
+    for sname, k in float_structs:
+        _c05_param_change(ctx, acc, sname, sname, None, _float_assignments(sname, None, ctx.tier, k), C05_CACHED_CORE if quick else C05_PARAM_PAIRS,
+                          ("eager",), n_ev, xla, seed_off=10 * k)
+        if not quick:
+            # compiled path (traced at the first parameter point, re-used after the change): the cached pairs on the quick tier's assignments
+            _c05_param_change(ctx, acc, sname, sname, None, _float_assignments(sname, None, "quick", k), C05_CACHED_CORE, ("tf",), n_ev, xla, seed_off=10 * k)
+    # quick: the pairs with a non-default amplitude model; thorough: also the default model behind the cached preprocessors, and compiled paths
+    jobs = [(pr, "eager") for pr in (C05_PARAM_PAIRS if quick else C05_CACHED_PAIRS)]
+    if not quick:
+        jobs += [(pr, "tf") for pr in C05_PARAM_PAIRS if pr[0] != "default"]
+    jobs.sort(key=lambda j: C05_CACHED_PAIRS.index(j[0]))
+    for k, entry in enumerate(charge_entries):
+        _c05_charge_conj(ctx, acc, entry, jobs, n_ev, xla, seed_off=10 * (k + 1))
+
+
 _C05_FUNCS = ["amp.amp:AbsPDF.__call__", "amp.amp:CachedAmpAmplitudeModel.pdf", "amp.amp:CachedShapeAmplitudeModel.pdf", "amp.amp:FactorAmplitudeModel.pdf",
               "amp.amp:P4DirectlyAmplitudeModel.pdf", "amp.preprocess:CachedAmpPreProcessor.build_cached", "amp.preprocess:CachedShapePreProcessor.build_cached",
               "amp.preprocess:CachedAnglePreProcessor.build_cached", "experimental.wrap_function:WrapFun.__call__", "config_loader.data:SimpleData.cal_angle"]
@@ -957,8 +1264,10 @@ _C05_FUNCS = ["amp.amp:AbsPDF.__call__", "amp.amp:CachedAmpAmplitudeModel.pdf", 
 @group(["C05"], "iface.C05/strategies_toy", _C05_FUNCS, env="tf", kind="B",
        bound="structure (1;1,1,0) three chains; 8 compatible (preprocessor, amp_model) pairs x {eager, use_tf_function, one of jit_compile / lazy_call / "
              "no_id_cached+lazy_call} (quick) or x all 9 variants (thorough); cached_amp with no_p4+no_angle; each model called twice on one data object "
-             "and twice on a second one; 32 (quick) / 512 (thorough) seeded events; XLA variants skipped (recorded) when XLA is unavailable; rtol 1e-9",
-       assumes=["A-LIB: tf.function tracing and XLA compilation are trusted only through this bounded comparison"])
+             "and twice on a second one; 32 (quick) / 512 (thorough) seeded events; XLA variants skipped (recorded) when XLA is unavailable.  "
+             + _C05_EXTRA_BOUND % ("(1;1,1,0)", "(1;1,1,0) with A populating helicities +-1 only"),
+       assumes=["A-LIB: tf.function tracing and XLA compilation are trusted only through this bounded comparison",
+                "only trainable parameters change after a data object was built (a strategy may fold fixed masses / widths into its cache)"])
 def c05_toy(ctx):
     n_ev = 32 if ctx.tier == "quick" else 512
     xla = _xla_available(ctx)
@@ -967,12 +1276,16 @@ def c05_toy(ctx):
     jobs = _c05_jobs(C05_PAIRS, ctx.tier)
     jobs.append((("cached_amp", "cached_amp"), "tf", {"no_p4": True, "no_angle": True}))
     _c05_density_jobs(ctx, acc, "s110", "s110", None, jobs, n_ev, xla)
+    _c05_extra(ctx, acc, xla, [("s110", 0)], ["s110"])
     acc.flush()
 
 
 @group(["C05"], "iface.C05/strategies_catalogue", _C05_FUNCS, env="tf", kind="B",
        bound="structures (1/2;1/2,0,0), (1;1,1/2,1/2), 4-body (4 chains), (1;1,0,0) and (0;0,1/2,1/2) with declared identical particles; 8 compatible "
-             "(preprocessor, amp_model) pairs eager, use_tf_function for 2/1/1/1/0 rotating pairs (quick) / all variants (thorough); 24 (quick) / 256 (thorough) events; rtol 1e-9")
+             "(preprocessor, amp_model) pairs eager, use_tf_function for 2/1/1/1/0 rotating pairs (quick) / all variants (thorough); 24 (quick) / 256 (thorough) events.  "
+             + _C05_EXTRA_BOUND % ("(1/2;1/2,0,0), 4-body (thorough: + (1;1,1/2,1/2))",
+                                   "(1;1,1/2,1/2) with A helicities +-1 only (thorough: + (1/2;1/2,0,0) with A helicity +1/2 only, + 4-body, three chains)"),
+       assumes=["only trainable parameters change after a data object was built (a strategy may fold fixed masses / widths into its cache)"])
 def c05_catalogue(ctx):
     n_ev = 24 if ctx.tier == "quick" else 256
     xla = _xla_available(ctx)
@@ -986,6 +1299,8 @@ def c05_catalogue(ctx):
         else:
             jobs = _c05_jobs(C05_PAIRS, ctx.tier)
         _c05_density_jobs(ctx, acc, label, sname, None, jobs, n_ev, xla, seed_off=10 * k)
+    _c05_extra(ctx, acc, xla, [("sh00", 1), ("f4", 2)] + ([] if ctx.tier == "quick" else [("s1hh", 3)]),
+               ["s1hh"] + ([] if ctx.tier == "quick" else ["sh00", "f4"]))
     acc.flush()
 
 
@@ -1003,7 +1318,8 @@ def _nll_grad(fcn):
         "config_loader.config_loader:ConfigLoader.get_fcn", "model.model:FCN.get_nll_grad"], env="tf", kind="B",
        bound="structures (1;1,1,0), (1/2;1/2,0,0) with fixed line shapes: data options {cached_int: True}, {cached_amp: True} (+ model: cached_int / cached_amp in "
              "thorough) vs default; (1;1,1,0) with floating mass and width of one resonance: cached_amp vs default; (1;1,0,0) with identical pair; "
-             "FCN.get_nll_grad evaluated twice, at a second parameter point, and through a second FCN on other data with the SAME model object; "
+             "(thorough: + width only / mass only floating); FCN.get_nll_grad evaluated twice, at a second parameter point (couplings and floating masses / widths "
+             "moved), and through a second FCN on other data with the SAME model object; "
              "24 data + 60 phase-space events (quick) / 200 + 1000 (thorough); NLL 1e-8 relative, gradient 1e-8 of the largest component",
        assumes=["cached_int is claimed only with fixed line-shape parameters (statement)"])
 def c05_nll(ctx):
@@ -1012,6 +1328,8 @@ def c05_nll(ctx):
     FCN = ctx.mod("model").FCN
     cases = [("s110", "s110", None, ["cached_int", "cached_amp"]), ("sh00", "sh00", None, ["cached_int", "cached_amp"]),
              ("s110@float_mass_width", "s110", {"R_BD": {"float": "mg"}}, ["cached_amp"]), ("sid0@identical", "sid0", None, ["cached_int", "cached_amp"])]
+    if ctx.tier != "quick":
+        cases += [("s110@float_width", "s110", {"R_BD": {"float": "g"}}, ["cached_amp"]), ("s110@float_mass", "s110", {"R_BC": {"float": "m"}}, ["cached_amp"])]
     for k, (label, sname, res_over, kinds) in enumerate(cases):
         opts = []
         for kind in kinds:
@@ -1031,7 +1349,8 @@ def c05_nll(ctx):
             with _quiet():
                 config, amp = M.load(ctx, cfg)
                 pa = M.random_params(amp, ctx.seed + 61, shape=False)
-                pb = M.random_params(amp, ctx.seed + 62, shape=False)
+                # second point: couplings AND the floating (trainable) masses / widths move; fixed line shapes stay (cached_int needs them fixed)
+                pb, _ = M.overlay_trainable(amp, M.random_params(amp, ctx.seed + 62, shape=False), M.random_params(amp, ctx.seed + 62, shape=True), kinds=("shape",))
                 M.set_params(amp, pa)
                 data, mc = M.cal_data(config, sname, ps), M.cal_data(config, sname, pm)
                 fcn = config.get_fcn(all_data=([data], [mc], None, None))
@@ -1055,7 +1374,7 @@ def c05_nll(ctx):
                 cfg, cls, got = run(o)
             except Exception as ex:  # noqa: BLE001  (a likelihood model that raises where the default one works does not "give the same NLL")
                 acc.add("%s/%s" % (label, kind), cl[kind], False, np.inf,
-                        {"config": "%s data=%s" % (label, o), "exception": "%s: %s" % (type(ex).__name__, str(ex)[:400]),
+                        {"config": "%s data=%s" % (label, o), "exception": _exc(ex),
                          "config_dict": M.build_config(sname, data=o, res_over=res_over), "reference_config_dict": ref_cfg})
                 continue
             cname = "%s data=%s (%s)" % (label, o, cls)
